@@ -101,7 +101,10 @@ class GM:
         if k == "quot":
             return ["AST_FUNCTION_QUOTIENT", [self.num(d - 1), self.posden()]]
         if k == "rem":
-            return ["AST_FUNCTION_REM", [self.num(d - 1), self.posden()]]
+            rem = ["AST_FUNCTION_REM", [self.num(d - 1), self.posden()]]
+            if r.random() < 0.5:  # a remainder behind a negated factor (precedence of `%` in generated code)
+                return ["AST_TIMES", [["AST_MINUS", [self.leaf()]], rem]]
+            return rem
         if k == "call":
             if not self.funs:
                 return self.leaf()
